@@ -23,6 +23,10 @@ func checkC06(c *Ctx) {
 
 	checkFresh(c)
 	checkLockset(c)
+	c.rule("LOCK-atomic-fill", "read-through cache fill: storage read and cache insert happen in one critical section", 3)
+	checkAtomicFill(c)
+	c.rule("ORDER-root-probe", "lock-free root lookup probes the old key before the re-keyed key (mirror of the writer's save-new-then-delete-old)", 2)
+	checkRootProbeOrder(c)
 	scope := func(fn *ssa.Function) bool { return l.pkgPathOf(fn) == l.ModPath }
 	runLockPairing(c, l, "LOCK-pairing", scope, lockHandoffs)
 
@@ -643,4 +647,212 @@ func checkCloseOnce(c *Ctx, rule string) {
 		}
 		c.decide(rule, "Exporter.Close unpins at most once", l.pos(cls.Pos()), okOnce, "decrement only while e.tree != nil, and e.tree is cleared on every path", "a second Close() decrements the reader count again: it releases the pin of another open export of the same version, which can then be deleted")
 	}
+}
+
+// checkAtomicFill: a function that loads a value from storage and then puts
+// it into one of nodeDB's caches must hold ndb.mtx from the storage read to
+// the insert.  Commit refreshes the cache under the same mutex right after
+// the physical write; if a reader's storage read happens before that write
+// and its insert after Commit's refresh, the cache keeps serving the
+// pre-commit value for the new version.
+func checkAtomicFill(c *Ctx) {
+	l := c.L
+	const R = "LOCK-atomic-fill"
+	fNC, fFC, fDB := l.Field("", "nodeDB", "nodeCache"), l.Field("", "nodeDB", "fastNodeCache"), l.Field("", "nodeDB", "db")
+	if fNC == nil || fFC == nil || fDB == nil {
+		c.anchorMissing(R, "nodeDB.nodeCache / fastNodeCache / db")
+		return
+	}
+	isAdd := func(in ssa.Instruction) bool {
+		cc := callCommon(in)
+		return cc != nil && cc.IsInvoke() && cc.Method.Name() == "Add" && (isLoadOfField(fNC)(cc.Value) || isLoadOfField(fFC)(cc.Value))
+	}
+	isRead := func(in ssa.Instruction) bool {
+		cc := callCommon(in)
+		return cc != nil && cc.IsInvoke() && cc.Method.Name() == "Get" && isLoadOfField(fDB)(cc.Value)
+	}
+	n := 0
+	for _, fn := range l.SrcFuncs {
+		if l.pkgPathOf(fn) != l.ModPath {
+			continue
+		}
+		var reads []ssa.Instruction
+		hasAdd := false
+		allInstrs(fn, func(in ssa.Instruction) {
+			if isRead(in) {
+				reads = append(reads, in)
+			}
+			if isAdd(in) {
+				hasAdd = true
+			}
+		})
+		if !hasAdd || len(reads) == 0 {
+			continue
+		}
+		keys, _, q := checkLockPairingQ(l, fn, nil)
+		for _, g := range reads {
+			fills := reachableAfter(g, isAdd, nil)
+			if len(fills) == 0 {
+				continue
+			}
+			n++
+			held := false
+			for _, k := range keys {
+				if strings.HasSuffix(k, ".mtx") && q(g, k) == lkHeld {
+					held = true
+				}
+			}
+			msg := "the storage read is not under ndb.mtx"
+			if held {
+				// no release between the read and the insert
+				searchFrom([]point{after(g)}, func(x ssa.Instruction) bool {
+					if isAdd(x) {
+						return true
+					}
+					if cc := callCommon(x); cc != nil {
+						if _, isDefer := x.(*ssa.Defer); !isDefer {
+							if op, ok := lockOpOf(cc); ok && op.unlock && strings.HasSuffix(op.key, ".mtx") {
+								held = false
+								msg = "ndb.mtx is released at " + l.ipos(x) + " between the storage read and the cache insert"
+								return true
+							}
+						}
+					}
+					return false
+				})
+			}
+			c.decide(R, l.fname(fn)+" "+l.calleeName(g)+" → cache insert", l.ipos(g), held, "one critical section from the storage read to the insert",
+				msg+": a commit can refresh the cache in between, and the stale value read before the commit then replaces the fresh entry")
+		}
+	}
+	if n < 3 {
+		c.anchorMissing(R, "fewer than 3 read-through fills found")
+	}
+}
+
+// checkRootProbeOrder: GetRoot resolves a reference root without a lock while
+// a pruning commit may re-key the referenced root from (v,1) to (v,0) in one
+// atomic batch (save new, delete old — ORDER-rekey).  A reader that probes the
+// OLD key first and the NEW key only after the old one was found missing
+// cannot miss both; the opposite order can (both probes miss across the
+// batch).  Decided: the probe of a key built from a NodeKey literal with
+// nonce 0 is executed only on the `missing` edge of the probe of the stored
+// reference.
+func checkRootProbeOrder(c *Ctx) {
+	l := c.L
+	const R = "ORDER-root-probe"
+	fDB := l.Field("", "nodeDB", "db")
+	nkT := l.NamedType("", "NodeKey")
+	if fDB == nil || nkT == nil {
+		c.anchorMissing(R, "nodeDB.db / NodeKey")
+		return
+	}
+	isProbe := func(in ssa.Instruction) bool {
+		cc := callCommon(in)
+		return cc != nil && cc.IsInvoke() && (cc.Method.Name() == "Get" || cc.Method.Name() == "Has") && isLoadOfField(fDB)(cc.Value)
+	}
+	// key argument derives from a NodeKey literal whose nonce is the constant 0
+	fromNonce0 := func(fn *ssa.Function, v ssa.Value) bool {
+		zero := false
+		for _, m := range structLiteralStores(fn, nkT) {
+			if k, ok := constInt(m["nonce"]); ok && k == 0 {
+				zero = true
+			}
+		}
+		return zero && strings.Contains(roleOf(l, v, "", 0), "GetKey(local)")
+	}
+	n := 0
+	for _, name := range []string{"*nodeDB.GetRoot", "*nodeDB.GetNode"} {
+		fn := l.Func("", name)
+		if fn == nil {
+			c.anchorMissing(R, name)
+			continue
+		}
+		var probes []ssa.Instruction
+		allInstrs(fn, func(in ssa.Instruction) {
+			if isProbe(in) {
+				probes = append(probes, in)
+			}
+		})
+		for _, p := range probes {
+			if !fromNonce0(fn, callCommon(p).Args[0]) {
+				continue
+			}
+			n++
+			// some other probe (of the referenced / original key) whose `missing` edge dominates p
+			ok := false
+			for _, o := range probes {
+				if o == p || fromNonce0(fn, callCommon(o).Args[0]) {
+					continue
+				}
+				res := extractOf(o.(ssa.Value), 0)
+				if res == nil {
+					continue
+				}
+				// a probe whose result is itself used as the key of another probe is the
+				// marker lookup that yields the reference, not the probe of the original key
+				isIndex := false
+				for _, q := range probes {
+					if q != o && stripTrivial(callCommon(q).Args[0]) == ssa.Value(res) {
+						isIndex = true
+					}
+				}
+				if isIndex {
+					continue
+				}
+				for _, b := range fn.Blocks {
+					iff := ifOf(b)
+					if iff == nil {
+						continue
+					}
+					if !b.Dominates(p.Block()) {
+						continue
+					}
+					// condition mentions the first probe's result being nil / false, possibly in a conjunction:
+					// accept any If whose condition is derived from res and that dominates p
+					if condMentions(iff.Cond, res, 0) && instrDominates(o, iff) {
+						ok = true
+					}
+				}
+			}
+			c.decide(R, l.fname(fn)+" probes the re-keyed (version,0) key only after the original key was missed", l.ipos(p), ok,
+				"old key first, new key on the miss edge", "the re-keyed key is probed without (or before) a miss of the original key: a concurrent re-keying commit between the two probes makes both miss, and a retained version is reported missing")
+		}
+	}
+	if n < 2 {
+		c.anchorMissing(R, "fewer than 2 (version,0) probes found in GetRoot / GetNode")
+	}
+}
+
+// condMentions: the condition is computed from v (through comparisons,
+// negation, len, conjunction phis).
+func condMentions(cond ssa.Value, v ssa.Value, d int) bool {
+	if d > 6 || cond == nil {
+		return false
+	}
+	cond = stripTrivial(cond)
+	if cond == v {
+		return true
+	}
+	switch x := cond.(type) {
+	case *ssa.BinOp:
+		return condMentions(x.X, v, d+1) || condMentions(x.Y, v, d+1)
+	case *ssa.UnOp:
+		return condMentions(x.X, v, d+1)
+	case *ssa.Phi:
+		for _, e := range x.Edges {
+			if condMentions(e, v, d+1) {
+				return true
+			}
+		}
+	case *ssa.Call:
+		if _, ok := x.Call.Value.(*ssa.Builtin); ok {
+			for _, a := range x.Call.Args {
+				if condMentions(a, v, d+1) {
+					return true
+				}
+			}
+		}
+	}
+	return false
 }
